@@ -829,7 +829,7 @@ inline uint StringDictionaryRPHTFC::decodeSymbol(uint *symbol, uchar *ptr,
 
 inline uint StringDictionaryRPHTFC::decodeString(uchar *str, uint *strLen,
                                                  uchar **ptr, uint *offset) {
-  uchar *vb = new uchar[maxlength];
+  uchar *vb = new uchar[maxlength + 5]; // a whole coded string may land here: VByte + suffix + closing symbol
   uint read = 0;
 
   uint rule;
